@@ -47,6 +47,12 @@ impl private::ValueStorageTrait for ValueStorage {
     type ValueStore = ValueStore;
 
     fn get_value_store(&self, store_id: ValueStoreIdx) -> Result<Arc<Self::ValueStore>> {
+        if store_id.into_usize() >= self.0.len() {
+            return Err(format_error!(&format!(
+                "Value store index ({store_id}) is not valid in regard of store count ({})",
+                self.0.len()
+            )));
+        }
         Ok(Arc::clone(self.0.get(store_id)?))
     }
 }
@@ -59,6 +65,12 @@ impl EntryStorage {
     }
 
     pub fn get_entry_store(&self, store_id: EntryStoreIdx) -> Result<&Arc<EntryStore>> {
+        if store_id.into_usize() >= self.0.len() {
+            return Err(format_error!(&format!(
+                "Entry store index ({store_id}) is not valid in regard of store count ({})",
+                self.0.len()
+            )));
+        }
         self.0.get(store_id)
     }
 }
